@@ -263,10 +263,13 @@ func RunRouter(t *testing.T, p *plan.Plan, keepLog int) *Result {
 				go func() { cl.Wait(); s.Logf("clients_done", ""); s.Stop() }()
 				if p.Knobs.GCEveryUs > 0 {
 					var tick func()
+					ngc := 0
 					tick = func() {
 						runtime.GC()
 						s.Fault("gc")
-						s.After(us(p.Knobs.GCEveryUs), "gc", tick)
+						if ngc++; ngc < 150 {
+							s.After(us(p.Knobs.GCEveryUs), "gc", tick)
+						}
 					}
 					s.After(us(p.Knobs.GCEveryUs), "gc", tick)
 				}
